@@ -51,6 +51,9 @@ def h_never_more_than_limit():
 
 HARNESSES = [h_limit_constant, h_compress_is_raw_deflate, h_roundtrip_within_limit, h_exceeding_is_refused, h_never_more_than_limit]
 
-h_exceeding_is_refused.seeds = [{"p": b"a" * 256001}, {"p": b"ab" * 128100}, {"p": bytes(range(256)) * 1001}]
+import random as _random
+_INCOMPRESSIBLE = _random.Random(7).randbytes(300000)       # stored blocks: zlib holds no pending output at the cut
+h_exceeding_is_refused.seeds = [{"p": b"a" * 256001}, {"p": b"ab" * 128100}, {"p": bytes(range(256)) * 1001},
+                                {"p": _INCOMPRESSIBLE}, {"p": _INCOMPRESSIBLE[:256001]}, {"p": b"a" * 256258}, {"p": b"a" * 256259}]
 h_roundtrip_within_limit.seeds = [{"p": b"a" * 256000}, {"p": b""}, {"p": b"abc" * 1000}]
 h_never_more_than_limit.seeds = [{"s": b"\x78\x9c\xed\xc1\x01\x0d\x00\x00\x00\xc2\xa0\xf7\x4f\x6d\x0e\x37\xa0\x00\x00\x00"}]
